@@ -19,6 +19,26 @@
 #![allow(dead_code)]
 use std::marker::PhantomData;
 
+/// Capacity of every model collection.  All models allocate their backing store once, with this capacity, and
+/// never grow it: a `Vec` whose length became symbolic (an insert that may or may not find its key) and is then
+/// pushed to makes CBMC encode a re-allocation of symbolic size, which exhausts the SAT back end's memory
+/// (DESIGN.md 13.3).  A harness that puts more than `MODEL_CAP` elements into one collection fails the assertion
+/// below, whose message `tools/kani_run.py` classifies as UNDECIDED (a limit of the model), never as a violation.
+pub const MODEL_CAP: usize = 8;
+
+#[inline]
+pub(crate) fn push_bounded<T>(v: &mut Vec<T>, x: T) {
+    if v.capacity() == 0 {
+        v.reserve_exact(MODEL_CAP);
+    }
+    assert!(v.len() < MODEL_CAP && v.len() < v.capacity(), "verif-model-capacity: more than MODEL_CAP elements in a model collection");
+    // SAFETY: len < capacity, so the slot is allocated and unused
+    unsafe {
+        std::ptr::write(v.as_mut_ptr().add(v.len()), x);
+        v.set_len(v.len() + 1);
+    }
+}
+
 // ------------------------------------------------------------------------------------------------
 // indexmap::IndexSet
 // ------------------------------------------------------------------------------------------------
@@ -55,7 +75,7 @@ impl<K: PartialEq> IndexSet<K> {
         match self.position(&k) {
             Some(i) => (i, false),
             None => {
-                self.v.push(k);
+                push_bounded(&mut self.v, k);
                 (self.v.len() - 1, true)
             }
         }
@@ -102,12 +122,10 @@ impl<K> IndexSet<K> {
     pub fn clear(&mut self) {
         self.v.clear()
     }
-    pub fn reserve(&mut self, n: usize) {
-        self.v.reserve(n)
+    pub fn reserve(&mut self, _n: usize) {
+        // the model's backing store has a fixed capacity (MODEL_CAP)
     }
-    pub fn shrink_to_fit(&mut self) {
-        self.v.shrink_to_fit()
-    }
+    pub fn shrink_to_fit(&mut self) {}
     pub fn get_index(&self, i: usize) -> Option<&K> {
         self.v.get(i)
     }
@@ -181,7 +199,7 @@ impl<K: PartialEq> HashSet<K> {
         if self.contains(&k) {
             false
         } else {
-            self.v.push(k);
+            push_bounded(&mut self.v, k);
             true
         }
     }
@@ -217,8 +235,8 @@ impl<K> HashSet<K> {
     pub fn clear(&mut self) {
         self.v.clear()
     }
-    pub fn reserve(&mut self, n: usize) {
-        self.v.reserve(n)
+    pub fn reserve(&mut self, _n: usize) {
+        // the model's backing store has a fixed capacity (MODEL_CAP)
     }
     pub fn iter(&self) -> std::slice::Iter<'_, K> {
         self.v.iter()
@@ -269,11 +287,11 @@ impl<K: PartialEq> LinkedHashSet<K> {
         match self.position(&k) {
             Some(i) => {
                 self.v.remove(i);
-                self.v.push(k);
+                push_bounded(&mut self.v, k);
                 false
             }
             None => {
-                self.v.push(k);
+                push_bounded(&mut self.v, k);
                 true
             }
         }
@@ -285,7 +303,7 @@ impl<K: PartialEq> LinkedHashSet<K> {
         match self.position(&k) {
             Some(i) => Some(std::mem::replace(&mut self.v[i], k)),
             None => {
-                self.v.push(k);
+                push_bounded(&mut self.v, k);
                 None
             }
         }
@@ -306,7 +324,7 @@ impl<K: PartialEq> LinkedHashSet<K> {
         match self.position(k) {
             Some(i) => {
                 let x = self.v.remove(i);
-                self.v.push(x);
+                push_bounded(&mut self.v, x);
                 true
             }
             None => false,
@@ -411,7 +429,7 @@ pub mod hashbrown {
         /// "Inserts an element into the `HashTable` with the given hash value, but without checking
         /// whether an equivalent element already exists within the table."
         pub fn insert_unique(&mut self, _hash: u64, value: T, _hasher: impl Fn(&T) -> u64) -> hash_table::OccupiedEntry<'_, T> {
-            self.v.push(value);
+            super::push_bounded(&mut self.v, value);
             let idx = self.v.len() - 1;
             hash_table::OccupiedEntry { table: self, idx }
         }
@@ -436,12 +454,10 @@ pub mod hashbrown {
         pub fn retain(&mut self, f: impl FnMut(&mut T) -> bool) {
             self.v.retain_mut(f)
         }
-        pub fn reserve(&mut self, n: usize, _hasher: impl Fn(&T) -> u64) {
-            self.v.reserve(n)
+        pub fn reserve(&mut self, _n: usize, _hasher: impl Fn(&T) -> u64) {
+            // fixed capacity (MODEL_CAP)
         }
-        pub fn shrink_to_fit(&mut self, _hasher: impl Fn(&T) -> u64) {
-            self.v.shrink_to_fit()
-        }
+        pub fn shrink_to_fit(&mut self, _hasher: impl Fn(&T) -> u64) {}
         pub fn capacity(&self) -> usize {
             self.v.capacity()
         }
@@ -490,7 +506,7 @@ pub mod hashbrown {
         }
         impl<'a, T> VacantEntry<'a, T> {
             pub fn insert(self, value: T) -> OccupiedEntry<'a, T> {
-                self.table.v.push(value);
+                super::super::push_bounded(&mut self.table.v, value);
                 let idx = self.table.v.len() - 1;
                 OccupiedEntry { table: self.table, idx }
             }
@@ -536,9 +552,7 @@ pub mod hashbrown {
         pub fn clear(&mut self) {
             self.v.clear()
         }
-        pub fn shrink_to_fit(&mut self) {
-            self.v.shrink_to_fit()
-        }
+        pub fn shrink_to_fit(&mut self) {}
     }
     pub mod hash_map {
         use super::HashMap;
@@ -582,7 +596,7 @@ pub mod hashbrown {
         }
         impl<'a, K, V, S> RawVacantEntryMut<'a, K, V, S> {
             pub fn insert_with_hasher(self, _hash: u64, key: K, value: V, _hasher: impl Fn(&K) -> u64) -> (&'a mut K, &'a mut V) {
-                self.map.v.push((key, value));
+                super::super::push_bounded(&mut self.map.v, (key, value));
                 let e = self.map.v.last_mut().unwrap();
                 (&mut e.0, &mut e.1)
             }
@@ -633,7 +647,7 @@ impl<K: PartialEq, V> FxHashMap<K, V> {
         match self.position(&k) {
             Some(i) => Some(std::mem::replace(&mut self.v[i].1, v)),
             None => {
-                self.v.push((k, v));
+                push_bounded(&mut self.v, (k, v));
                 None
             }
         }
@@ -668,7 +682,7 @@ impl<'a, K, V> MapEntry<'a, K, V> {
         match self.idx {
             Some(i) => &mut self.map.v[i].1,
             None => {
-                self.map.v.push((self.key, f()));
+                push_bounded(&mut self.map.v, (self.key, f()));
                 &mut self.map.v.last_mut().unwrap().1
             }
         }
